@@ -29,6 +29,9 @@ Inductive case :=
    mode; when accepted, one request per endpoint through ONE router: values and observation *)
 | CConfig (a : adapter) (eps : list (list tok * list tok)) (texts : list (string * string))
           (accepted : bool) (routes : list (list string * robs))
+(* the route text of an accepted endpoint after Init (EndpointConfig.Endpoint), raw and tokenised *)
+| CRouteTextRaw (colon : bool) (ep : string) (route : string)
+| CRouteText (colon : bool) (segs : list tok) (eptext : string) (route : string)
 (* Init with the endpoint's sequential-merge flag on or off (Init's verdict does not read it) *)
 | CInitS (colon sequential : bool) (segs be : list tok) (eptext betext : string) (accepted : bool)
 (* one request with a query string through an adapter and the full default backend stack; the
@@ -85,12 +88,17 @@ Definition check_case (c : case) : bool * bool :=
        (if acc then
           Nat.eqb (List.length routes) (List.length eps) &&
           forallb (fun er => let '(e, (vals, o)) := er in
-                     wf_route (fst e) (snd e) vals && robs_eqb (serve a (fst e) (snd e) vals) o)
+                     wf_route (fst e) (snd e) vals && robs_eqb (serve_routed a (fst e) (snd e) vals) o)
                   (combine eps routes)
         else true),
        forallb (fun e => spec_init_b (ph_names (fst e)) (ph_names (snd e)) acc) eps &&
        forallb (fun er => let '(e, (vals, o)) := er in spec_route_b (fst e) (snd e) vals o)
                (combine eps routes))
+  | CRouteTextRaw colon ep route => (str_eqb (init_route colon ep) route, true)
+  | CRouteText colon segs ept route =>
+      (str_eqb (render_ep segs) ept && forallb seg_ok segs && str_eqb (init_route colon ept) route,
+       (* every declared parameter appears in the router's syntax, in order, between the same literals *)
+       str_eqb route (clean_path (render_route colon segs)))
   | CInitS colon sq segs be ept bet acc =>
       (str_eqb (render_ep segs) ept && str_eqb (render be) bet &&
        forallb seg_ok segs && forallb be_tok_ok be &&
@@ -98,11 +106,11 @@ Definition check_case (c : case) : bool * bool :=
        spec_init_b (ph_names segs) (ph_names be) acc)
   | CRouteQ a segs be ept bet vals epq beq query o =>
       (str_eqb (render_ep segs) ept && str_eqb (render be) bet && wf_route segs be vals &&
-       robs_eqb (serve a segs be vals) o,
+       robs_eqb (serve_routed a segs be vals) o,
        spec_route_b segs be vals o)
   | CRoute a segs be ept bet vals o =>
       (str_eqb (render_ep segs) ept && str_eqb (render be) bet && wf_route segs be vals &&
-       robs_eqb (serve a segs be vals) o,
+       robs_eqb (serve_routed a segs be vals) o,
        spec_route_b segs be vals o)
   end.
 
